@@ -663,11 +663,27 @@ func c20W4(sum *c20Summary, rng *rand.Rand, g, rounds int, viol func(string, str
 			pp, qp, n := provableKey(48)
 			s := keyproof.NewValidKeyProofStructure(n, []*big.Int{bi(36), bi(49)})
 			first := s.BuildProof(pp, qp)
+			second := s.BuildProof(pp, qp)
+			// every verifier has its own copy of a proof (verification writes the component names into the proof it is given);
+			// what is shared is the structure. The copies are made beforehand and all goroutines start together, so that the
+			// short structure-checking phases of the verifiers overlap; the two verifiers check DIFFERENT proofs.
+			var copies [2]keyproof.ValidKeyProof
+			copied := true
+			for k, src := range []keyproof.ValidKeyProof{first, second} {
+				if jb, err := json.Marshal(src); err != nil || json.Unmarshal(jb, &copies[k]) != nil {
+					copied = false
+				}
+			}
+			if !copied {
+				viol("C20/harness", "key proof does not survive a JSON round trip")
+			}
+			start := make(chan struct{})
 			var wg2 sync.WaitGroup
-			for w := 0; w < 3; w++ {
+			for w := 0; w < 3 && copied; w++ {
 				wg2.Add(1)
 				go func(w int) {
 					defer wg2.Done()
+					<-start
 					if w == 0 {
 						p2 := s.BuildProof(pp, qp)
 						if !s.VerifyProof(p2) {
@@ -675,17 +691,12 @@ func c20W4(sum *c20Summary, rng *rand.Rand, g, rounds int, viol func(string, str
 						}
 						return
 					}
-					// every verifier has its own copy of the proof (verification writes the component names into the proof it
-					// is given); what is shared is the structure
-					var mine keyproof.ValidKeyProof
-					if jb, err := json.Marshal(first); err != nil || json.Unmarshal(jb, &mine) != nil {
-						return
-					}
-					if !s.VerifyProof(mine) {
+					if !s.VerifyProof(copies[w-1]) {
 						viol("C20/concurrent-keyproof-invalid", "a valid key proof is rejected while the same structure is used by other goroutines")
 					}
 				}(w)
 			}
+			close(start)
 			wg2.Wait()
 			sum.Proofs += 3
 		}
